@@ -18,6 +18,10 @@ class Undecided(Exception):
     pass
 
 
+class _Abort(Exception):
+    """the path ends in a panic (assert / expect): it returns nothing, so it carries no obligation"""
+
+
 class _NeedChoice(Exception):
     def __init__(self, n, what):
         self.n = n
@@ -96,6 +100,8 @@ class Interp:
             except _NeedChoice as nc:
                 for i in range(nc.n):
                     stack.append(choices + [i])
+            except _Abort:
+                pass
             if len(paths) > max_paths:
                 raise Undecided("too many paths")
         return paths
@@ -387,6 +393,8 @@ class Interp:
                 v = self._call(fn, t, env, heap, rel, proms, depth)
                 self._store(env, heap, t["dest"], v)
                 if t["tgt"] < 0:
+                    if getattr(self, "drop_panics", False) and "panic" in (t["callee"] or ""):
+                        raise _Abort()
                     raise Undecided("diverging call")
                 b = t["tgt"]
                 continue
@@ -453,7 +461,10 @@ class Interp:
                 self._calls.append((suf, tuple(args)))
         for suf, model in self.call_models.items():
             if callee.endswith(suf) or res.endswith(suf):
-                return model(self, args, heap, rel)
+                self.cur_site = (fn, t)         # models may look at the call site (e.g. only calls inside a loop are scripted)
+                out = model(self, args, heap, rel)
+                if out is not NotImplemented:
+                    return out
         if not callee:
             return self._unknown_result(fn, t)
         if last in ("total_order", "cmp", "total_cmp") and len(args) >= 2:
@@ -658,3 +669,33 @@ class Interp:
         if v and v[0] == "some":
             return some(f(v[1]))
         return v
+
+
+def script_next(it, length, make=None):
+    """models `Iterator::next` in Interp `it` as a finite script: `length` elements, then None (state is reset for every explored run).
+    Loop forms of iterator chains are thereby evaluated over sequences of a fixed small length."""
+    state = {"i": 0}
+    make = make or (lambda i: some(sym(f"item{i}")))
+
+    from . import mir as _mir
+    in_loop = {}
+
+    def nxt(i_, a, h, rl):
+        fn_, t_ = i_.cur_site
+        if fn_["id"] not in in_loop:
+            blocks = set().union(*_mir.natural_loops(fn_).values()) if _mir.natural_loops(fn_) else set()
+            in_loop[fn_["id"]] = {bi for bi, tt in _mir.calls(fn_) if bi in blocks and tt["callee"].endswith("Iterator::next")}
+        here = [bi for bi, tt in _mir.calls(fn_) if tt is t_]
+        if not here or here[0] not in in_loop[fn_["id"]]:
+            return NotImplemented           # a `next()` outside any loop (`ranked().next()`) is an ordinary unknown call
+        state["i"] += 1
+        return make(state["i"]) if state["i"] <= length else NONE
+    it.call_models = dict(it.call_models)
+    it.call_models["Iterator::next"] = nxt
+    orig = it._run
+
+    def run(choices):
+        state["i"] = 0
+        return orig(choices)
+    it._run = run
+    return it
